@@ -277,32 +277,7 @@ func runC13(c *fw.Ctx) {
 	rec(maxSel)
 
 	// (b) faulty variants
-	type fv struct{ label, text string }
-	mk := func(path, pathBody string, extra string) string {
-		return "JSIGHT 0.3\n" + extra + "GET " + path + "\n  Path\n" + indentBlock(pathBody+"\n", "    ") + "  200 any\n"
-	}
-	faults := []fv{
-		{"unmatched-property", mk("/a/{id}", "{\n  \"zzz\": 1\n}", "")},
-		{"unmatched-property-among-matched", mk("/a/{id}", "{\n  \"id\": 1,\n  \"zzz\": 2\n}", "")},
-		{"empty-name", mk("/a/{}", "{\n  \"id\": 1\n}", "")},
-		{"empty-name-no-path-directive", "JSIGHT 0.3\nGET /a/{}\n  200 any\n"},
-		{"repeated-name", mk("/a/{id}/{id}", "{\n  \"id\": 1\n}", "")},
-		{"repeated-name-no-path-directive", "JSIGHT 0.3\nURL /a/{id}/b/{id}\n  GET\n    200 any\n"},
-		{"nested-object", mk("/a/{id}", "{\n  \"id\": {\n    \"x\": 1\n  }\n}", "")},
-		{"array-property", mk("/a/{id}", "{\n  \"id\": [1]\n}", "")},
-		{"empty-object-typed-any", mk("/a/{id}", "{\n  \"id\": {} // {type: \"any\"}\n}", "")},
-		{"empty-array-typed-any", mk("/a/{id}", "{\n  \"id\": [] // {type: \"any\"}\n}", "")},
-		{"object-typed-by-rule", mk("/a/{id}", "{\n  \"id\": {\"x\": 1} // {type: \"@ob\"}\n}", "TYPE @ob\n  {\"x\": 1}\n")},
-		{"scalar-type-ref", mk("/a/{id}", "@sc", "TYPE @sc\n  1\n")},
-		{"array-type-ref", mk("/a/{id}", "@ar", "TYPE @ar\n  [1]\n")},
-		{"undefined-type-ref", mk("/a/{id}", "@nope", "")},
-		{"or-types", mk("/a/{id}", "@o1 | @o2", "TYPE @o1\n  {\n    \"id\": 1\n  }\nTYPE @o2\n  {\n    \"id\": 2\n  }\n")},
-		{"additional-properties", mk("/a/{id}", "{ // {additionalProperties: true}\n  \"id\": 1\n}", "")},
-		{"nullable", mk("/a/{id}", "{ // {nullable: true}\n  \"id\": 1\n}", "")},
-		{"empty-object", mk("/a/{id}", "{}", "")},
-		{"declared-twice-url-and-method", "JSIGHT 0.3\nURL /a/{id}\n  Path\n    {\n      \"id\": 1\n    }\n  GET\n    Path\n      {\n        \"id\": 2\n      }\n    200 any\n"},
-		{"declared-twice-prefix-and-longer", "JSIGHT 0.3\nGET /a/{id}\n  Path\n    {\n      \"id\": 1\n    }\n  200 any\nGET /a/{id}/b\n  Path\n    {\n      \"id\": 2\n    }\n  200 any\n"},
-	}
+	faults := c13FaultDocs()
 	for _, f := range faults {
 		if !c.Next() {
 			continue
@@ -353,4 +328,42 @@ func bindClass(got, want []string) string {
 		return "extra"
 	}
 	return "different"
+}
+
+// c13fv is one faulty Path declaration (must be rejected, never crash).
+type c13fv struct{ label, text string }
+
+// c13FaultDocs: the faulty variants of (b); also a stream of C01 / C02 (a fault must be a diagnostic).
+func c13FaultDocs() []c13fv {
+	type fv = c13fv
+	mk := func(path, pathBody string, extra string) string {
+		return "JSIGHT 0.3\n" + extra + "GET " + path + "\n  Path\n" + indentBlock(pathBody+"\n", "    ") + "  200 any\n"
+	}
+	faults := []fv{
+		{"unmatched-property", mk("/a/{id}", "{\n  \"zzz\": 1\n}", "")},
+		{"unmatched-property-among-matched", mk("/a/{id}", "{\n  \"id\": 1,\n  \"zzz\": 2\n}", "")},
+		{"empty-name", mk("/a/{}", "{\n  \"id\": 1\n}", "")},
+		{"empty-name-no-path-directive", "JSIGHT 0.3\nGET /a/{}\n  200 any\n"},
+		{"repeated-name", mk("/a/{id}/{id}", "{\n  \"id\": 1\n}", "")},
+		{"repeated-name-no-path-directive", "JSIGHT 0.3\nURL /a/{id}/b/{id}\n  GET\n    200 any\n"},
+		{"nested-object", mk("/a/{id}", "{\n  \"id\": {\n    \"x\": 1\n  }\n}", "")},
+		{"array-property", mk("/a/{id}", "{\n  \"id\": [1]\n}", "")},
+		{"empty-object-typed-any", mk("/a/{id}", "{\n  \"id\": {} // {type: \"any\"}\n}", "")},
+		{"empty-array-typed-any", mk("/a/{id}", "{\n  \"id\": [] // {type: \"any\"}\n}", "")},
+		{"object-typed-by-rule", mk("/a/{id}", "{\n  \"id\": {\"x\": 1} // {type: \"@ob\"}\n}", "TYPE @ob\n  {\"x\": 1}\n")},
+		{"regex-type-ref", mk("/a/{id}", "@rx", "TYPE @rx regex\n  /a/\n")},
+		{"alias-to-regex-type-ref", mk("/a/{id}", "@al", "TYPE @al\n  @rx\nTYPE @rx regex\n  /a/\n")},
+		{"any-type-ref", mk("/a/{id}", "@an", "TYPE @an any\n")},
+		{"enum-typed-property", mk("/a/{id}", "{\n  \"id\": \"x\" // {enum: @en}\n}", "ENUM @en\n  [\"x\", \"y\"]\n")[0:0] + "JSIGHT 0.3\nENUM @en\n  [\"x\", \"y\"]\nGET /a/{id}/{zz}\n  Path\n    {\n      \"id\": \"x\", // {enum: @en}\n      \"nope\": 1\n    }\n  200 any\n"},
+		{"scalar-type-ref", mk("/a/{id}", "@sc", "TYPE @sc\n  1\n")},
+		{"array-type-ref", mk("/a/{id}", "@ar", "TYPE @ar\n  [1]\n")},
+		{"undefined-type-ref", mk("/a/{id}", "@nope", "")},
+		{"or-types", mk("/a/{id}", "@o1 | @o2", "TYPE @o1\n  {\n    \"id\": 1\n  }\nTYPE @o2\n  {\n    \"id\": 2\n  }\n")},
+		{"additional-properties", mk("/a/{id}", "{ // {additionalProperties: true}\n  \"id\": 1\n}", "")},
+		{"nullable", mk("/a/{id}", "{ // {nullable: true}\n  \"id\": 1\n}", "")},
+		{"empty-object", mk("/a/{id}", "{}", "")},
+		{"declared-twice-url-and-method", "JSIGHT 0.3\nURL /a/{id}\n  Path\n    {\n      \"id\": 1\n    }\n  GET\n    Path\n      {\n        \"id\": 2\n      }\n    200 any\n"},
+		{"declared-twice-prefix-and-longer", "JSIGHT 0.3\nGET /a/{id}\n  Path\n    {\n      \"id\": 1\n    }\n  200 any\nGET /a/{id}/b\n  Path\n    {\n      \"id\": 2\n    }\n  200 any\n"},
+	}
+	return faults
 }
